@@ -4,6 +4,7 @@ import (
 	"errors"
 	"fmt"
 	"io"
+	"runtime"
 
 	"google.golang.org/grpc/metadata"
 	"google.golang.org/protobuf/proto"
@@ -43,6 +44,10 @@ type fuzzCase struct {
 	srvDevs      []string
 	chanErrAtEnd error
 	chanDone     bool
+	// bytes the process allocated during the run (runtime TotalAlloc delta)
+	// and whether an envelope declared far more than was ever delivered
+	alloc0, allocDelta uint64
+	hugeDeclared       int
 }
 
 var fuzzMethods = []string{"/sim.Test/Unary", "/sim.Test/ClientStream", "/sim.Test/ServerStream", "/sim.Test/Bidi", "sim.Test/Unary"}
@@ -56,6 +61,13 @@ func runRawFuzz(w *World, rs *RunSpec) {
 	}
 	fc := &fuzzCase{role: role, modelFatal: -1}
 	w.fuzz = fc
+	var ms runtime.MemStats
+	runtime.ReadMemStats(&ms)
+	fc.alloc0 = ms.TotalAlloc
+	defer func() {
+		runtime.ReadMemStats(&ms)
+		fc.allocDelta = ms.TotalAlloc - fc.alloc0
+	}()
 	cfg := RawCfg{Reverse: c.Intn(2, "rawrev") == 1, Negotiate: c.Intn(4, "rawneg") != 0, DisableFC: c.Intn(6, "rawdisfc") == 5}
 	cfg.Carrier = GenCarrier(c)
 	cfg.Carrier.LatC2S, cfg.Carrier.LatS2C = 0, 0
@@ -218,7 +230,13 @@ func runRawFuzz(w *World, rs *RunSpec) {
 					big := validMessageOfSize(70000)
 					rsv.Send(SMsg(sid, uint32(len(big)), big))
 				case has("size-too-big"):
-					rsv.Send(SMsg(sid, uint32(len(body)+5), body))
+					// slightly too big, or a declared size far beyond anything delivered
+					extra := 5
+					if (len(body)+int(sid))%2 == 1 {
+						extra = 1 << 27
+						fc.hugeDeclared = extra
+					}
+					rsv.Send(SMsg(sid, uint32(len(body)+extra), body))
 				case has("size-too-small"):
 					if len(body) > 1 {
 						rsv.Send(SMsg(sid, uint32(len(body)-1), body))
@@ -387,7 +405,11 @@ func genClientConversation(c *Chooser, w *World, fc *fuzzCase, rev tunnelpb.Prot
 		case 6:
 			name = "wrong-size"
 			if m, ok := f.Frame.(*tunnelpb.ClientToServer_RequestMessage); ok {
-				m.RequestMessage.Size = uint32(int(m.RequestMessage.Size) + Pick(c, "fzsz", -1, 1, 100000, -int(m.RequestMessage.Size)))
+				delta := Pick(c, "fzsz", -1, 1, 100000, -int(m.RequestMessage.Size), 1<<27, 1<<28)
+				if delta >= 1<<27 {
+					fc.hugeDeclared = delta
+				}
+				m.RequestMessage.Size = uint32(int(m.RequestMessage.Size) + delta)
 			} else {
 				f.Frame = &tunnelpb.ClientToServer_RequestMessage{RequestMessage: &tunnelpb.MessageData{Size: 2, Data: []byte{1, 2, 3, 4}}}
 			}
@@ -506,6 +528,17 @@ func OracleC09(w *World, h *History) {
 				w.AddViolation("C09", "resources-retained", fmt.Sprintf("after the raw peer hung up: %d server stream table entries, %d client stream table entries", total, p.ClientTable), det, e.Seq)
 			}
 		}
+	}
+	// Memory: whatever the peer declares, the endpoint may hold what was
+	// delivered (at most a window per stream, plus the message being
+	// assembled), not what was announced. The whole run - frames, copies,
+	// history - allocates a few MiB; an envelope announcing 128 MiB or more
+	// must not turn into an allocation of that size.
+	if fc.hugeDeclared > 0 {
+		h.Derived["probe.huge_declared_size"]++
+	}
+	if fc.allocDelta > 100<<20 {
+		w.AddViolation("C09", "bloat", fmt.Sprintf("the process allocated %d MiB during a run in which the peer delivered well under 1 MiB (largest declared message size beyond the data delivered: %d bytes)", fc.allocDelta>>20, fc.hugeDeclared), det, 0)
 	}
 	if fc.role == 0 {
 		if fc.maxQueued > 65536 {
